@@ -398,6 +398,17 @@ def check_library(ctx, lib):
         for f in ("from_array", "from_vec"):
             check_fold(ctx, lib, RB, "crate::operator::conj::%s::%s" % (tyname, f), new)
         check_fold(ctx, lib, RB, "crate::operator::conj::%s::from_conjunctions" % tyname, new, inner="%s::from_array" % tyname)
+    # conde { .. } is the disjunction of the conjunctions of its clauses, all of them, in order
+    import C13
+
+    C13.check_conde_builder(ctx, lib, "C14.K6.conde-builder")
+    fn = streams.getfn(ctx, lib, R, "crate::operator::conde::conde")
+    if fn:
+        t = ev.fn_term(fn)
+        r = tables.result(t)
+        if r[0] == "field" and r[2] == "goal":
+            r = r[1]
+        ctx.expect(unify(pat("Conde::from_conjunctions(@0.body)"), r) is not None and not tables.semis(t), R, "conde|delegates", site_of(fn), "conde(param) must be Conde::from_conjunctions(param.body); found %s" % show(t, maxdepth=4)[:160])
     # OperatorParam::new / ClosureOperatorParam::new keep their argument
     for p, field in (("OperatorParam", "body"), ("ClosureOperatorParam", "f"), ("PatternMatchOperatorParam", "arms")):
         fn = streams.getfn(ctx, lib, R, "crate::operator::%s::new" % p)
